@@ -404,6 +404,7 @@ class Tracer:
             g = self.scenario["gw"]
             for d, v in zip(g["dates"], g["values"]):
                 gw.append({"day": ordinal(pd.to_datetime(d)), "depth": to_num(v)})
+        gw.sort(key=lambda o: o["day"])
         cfg["gwObs"] = gw
         cfg["thini"] = vec(np.asarray(m._init_cond.thini, dtype=float) * mm)
         cfg["crop0"] = self._season_crop(0 if cs.n_seasons > 0 else -1)
